@@ -578,7 +578,7 @@ impl PropImpl for C07 {
          multi-line value or >= 2 paragraphs and at least one non-default setting. Distinct by hash of (text, settings).".into()
     }
     fn expected_labels(&self) -> Vec<&'static str> {
-        vec!["level:document", "level:document-without-paragraph-function", "level:paragraph", "level:entry", "level:Control", "level:control-Source", "level:control-Binary", "indent:field-name-length", "indent:1", "immediate-empty-line:true", "one-liner:small", "one-liner:large", "pcmp:first-value", "pcmp:name-list", "ecmp:key", "ecmp:value-key", "ecmp:reverse-key", "fmt:identity", "fmt:one-per-line", "fmt:upper", "comment:between-fields", "comment:after-last-field", "comment:top", "comment:end", "whitespace-only-continuation-line", "control:substvar-in-relation-field", "control:uploaders"]
+        vec!["level:document", "level:document-without-paragraph-function", "level:paragraph", "level:entry", "level:Control", "level:control-Source", "level:control-Binary", "indent:field-name-length", "indent:1", "immediate-empty-line:true", "one-liner:small", "one-liner:large", "pcmp:first-value", "pcmp:name-list", "ecmp:key", "ecmp:value-key", "ecmp:reverse-key", "fmt:identity", "fmt:one-per-line", "fmt:upper", "comment:between-fields", "comment:after-last-field", "comment:top", "comment:end", "whitespace-only-continuation-line", "control:substvar-in-relation-field", "control:uploaders", "control:paragraph-of-neither-kind"]
     }
     fn budget(&self, tier: Tier) -> Budget {
         Budget { cases_per_lane: if tier == Tier::Quick { 10000 } else { 40_000 }, tape_max: 700, cpu_s: 10 }
